@@ -6,8 +6,9 @@
  R3  determinism: objects are ordered maps; hash is a function of the dump only
  R4  quoted keys are decoded with the same decoder as string values
 """
-from vlib.facts import kids, strip, walk, is_call, call_args, call_object, callee, render, literal
+from vlib.facts import noid, kids, strip, walk, is_call, call_args, call_object, callee, render, literal
 from vlib.work import AnalysisBroken
+from vlib.cfg import write_target
 
 UNITS = ["src/types/json.cpp"]
 J = "occa::json::"
@@ -121,6 +122,7 @@ def run(ctx):
     R.rule("C24-R1", "writer escape table vs reader decode table", floor=9)
     R.rule("C24-R2", "user strings (values and keys) reach the output only through the escaper", floor=2)
     R.rule("C24-R3", "deterministic dump: ordered object map, hash computed from the dump", floor=2)
+    R.rule("C24-R5", "a number's printed text follows its value: every value-changing assignment of primitive resets the remembered literal text", floor=11)
     R.rule("C24-R4", "object keys are decoded with the string decoder", floor=1)
 
     # locate the escaper: a function in json.cpp with an escaping switch
@@ -262,6 +264,29 @@ def run(ctx):
     lof = prog.fn(J + "loadObjectField")
     ok = any(is_call(c) and callee(c) == J + "loadString" for c in lof.walk())
     R.ob("C24-R4", ok, lof.q, "key:loadString", "%s:%d" % (lof.relfile, lof.d["line"]), "quoted keys are decoded by loadString")
+
+    # ---- R5: primitive::toString prints `source` when it is set; load() sets it to the literal's spelling -------------------------------------
+    pr = ctx.program(["src/types/primitive.cpp"], thorough_all=False)
+    ts = pr.fn("occa::primitive::toString")
+    uses_source = any(n["k"] == "MemberExpr" and n.get("n") == "occa::primitive::source" for n in ts.walk())
+    n5 = 0
+    for f in pr.fns("occa::primitive::operator="):
+        ps = f.d["params"]
+        if len(ps) != 1 or "primitive" in f.tname(ps[0]["t"]) or "*" in f.tname(ps[0]["t"]):
+            continue
+        writes_value = any(write_target(n) is not None and "anonymous" in strip(write_target(n)).get("n", "") or (write_target(n) is not None and ".value." in noid(render(strip(write_target(n)), False)) or (write_target(n) is not None and noid(render(strip(write_target(n)), False)).startswith("this->value."))) for n in f.walk())
+        resets = any((write_target(n) is not None and strip(write_target(n)).get("n") == "occa::primitive::source") or
+                     (is_call(n) and callee(n).split("::")[-1] in ("clear", "operator=", "assign") and call_object(n) is not None and strip(call_object(n)).get("n") == "occa::primitive::source") or
+                     (n["k"] == "CXXOperatorCallExpr" and n.get("op") == "=" and len(kids(n)) == 3 and strip(kids(n)[1]).get("n") == "occa::primitive::source") for n in f.walk())
+        if not writes_value:
+            continue
+        n5 += 1
+        ok = resets or not uses_source
+        R.ob("C24-R5", ok, f.q + "(" + f.tname(ps[0]["t"]) + ")", "assignment resets the literal text", "%s:%d" % (f.relfile, f.d["line"]),
+             "source is cleared together with the new value" if ok else
+             "the value changes but `source` keeps the literal text it was parsed from, and toString()/dump()/hash() print `source`: parse(\"{\\\"N\\\":1}\")[\"N\"] = 2 still dumps and hashes as 1")
+    if n5 < 11:
+        raise AnalysisBroken("primitive::operator=(T): only %d arithmetic overloads found" % n5)
 
 
 META = {
